@@ -787,6 +787,12 @@ func (e *Engine) applyContract(fr *Frame, st *State, con *Contract, sig *types.S
 	e.checkPre(fr, st, con, nil, args, ins, ctx)
 	old := st.clone()
 	ctx.old = old
+	// ghost variables the callee sets on entry: set first, so that one that the callee goes on to
+	// change (it is in the modifies clause, its final value is what the ensures clauses say) is
+	// havocked below, and one that it does not change keeps the entry value
+	for g, val := range con.GhostSet {
+		st.ghost[g] = Num(val)
+	}
 	// havoc the frame
 	e.symMode++
 	defer func() { e.symMode-- }()
@@ -804,9 +810,6 @@ func (e *Engine) applyContract(fr *Frame, st *State, con *Contract, sig *types.S
 			cur, _ = e.ghostInit(st, g).(*Term)
 		}
 		st.ghost[g] = Add(cur, Num(1))
-	}
-	for g, val := range con.GhostSet {
-		st.ghost[g] = Num(val)
 	}
 	res := e.freshResults(st, sig)
 	// default taint flow of a contract that does not state one: results and modified
